@@ -514,16 +514,21 @@ def rule_option_plumbing(ctx):
                 if isinstance(d_, ast.Constant):
                     env[nm_] = d_.value  # the signature's own default
             env[opt] = 4096
-            try:
-                t = Tiny(env, default_call=lambda f_, a_, k_=None: Sym(f"<{f_}>"), model_types=True, opaque_globals=True)
-                r = t.run(body)
-            except AnalysisError as e:
-                raise AnalysisError(f"[C16.5-configured-limit-is-the-enforced-limit] {clsq}.setProtocolOptions outside the modelled subset: {e}")
-            n += 1
             other = "maxMessagePayloadSize" if opt == "maxFramePayloadSize" else "maxFramePayloadSize"
-            get = lambda nm: t.env.get(f"self.{nm}", t.env["self"].attrs.get(nm))
-            if r[0] == "raise" or get(opt) != 4096 or get(other) != 0:
-                probs.append(f"{cls.name}.setProtocolOptions({opt}=4096): {opt} = {get(opt)}, {other} = {get(other)} afterwards ({r[0]} {str(r[1])[:80]})")
+            # ... with the other limit not configured, and with the other limit already configured to the very same number
+            for other_now in (0, 4096):
+                env2 = dict(env)
+                env2[f"self.{other}"] = other_now
+                try:
+                    t = Tiny(env2, default_call=lambda f_, a_, k_=None: Sym(f"<{f_}>"), model_types=True, opaque_globals=True)
+                    r = t.run(body)
+                except AnalysisError as e:
+                    raise AnalysisError(f"[C16.5-configured-limit-is-the-enforced-limit] {clsq}.setProtocolOptions outside the modelled subset: {e}")
+                n += 1
+                get = lambda nm: t.env.get(f"self.{nm}", t.env["self"].attrs.get(nm))
+                if r[0] == "raise" or get(opt) != 4096 or get(other) != other_now:
+                    probs.append(f"{cls.name}.setProtocolOptions({opt}=4096) with {other} = {other_now} before: {opt} = {get(opt)}, {other} = {get(other)} afterwards "
+                                 f"({r[0]} {str(r[1])[:60]})")
     ctx.ob(f"setProtocolOptions: each payload size option sets its own limit and only that one, on both factories [{n} cells]", not probs, "; ".join(probs[:2]), fn.loc())
 
 
